@@ -86,6 +86,23 @@ fn adversarial_lark() -> BoxedStrategy<String> {
         big.clone().prop_map(|a| format!("start: p::0\np::_: \"a\" p::set_bit({}) %if bit_clear({}) | \"\"\n", a, a)),
         big.clone().prop_map(|a| format!("start: x\nx[max_tokens={}]: /a*/\n", a)),
         big.prop_map(|a| format!("start: \"{}\"\n", "ab".repeat(a.parse::<usize>().unwrap_or(7).min(300000)))),
+        // a long chain of rule (terminal) references: flat text, deep compilation
+        prop_oneof![Just(100usize), Just(1000), Just(20000)].prop_map(|d| {
+            let mut t = String::from("start: r0\n");
+            for i in 0..d {
+                t.push_str(&format!("r{}: r{}\n", i, i + 1));
+            }
+            t.push_str(&format!("r{}: \"a\"\n", d));
+            t
+        }),
+        prop_oneof![Just(100usize), Just(1000), Just(20000)].prop_map(|d| {
+            let mut t = String::from("start: T0\n");
+            for i in 0..d {
+                t.push_str(&format!("T{}: T{} \"b\"\n", i, i + 1));
+            }
+            t.push_str(&format!("T{}: \"a\"\n", d));
+            t
+        }),
         Just("start: start\n".to_string()),
         Just("start: a\na: b\nb: a | a a\n".to_string()),
         Just("start: A\nA: B\nB: A\n".to_string()),
